@@ -57,7 +57,7 @@ func (c *ctxT) c03ClassOnly() map[string]map[int]bool {
 				if c.src(p.Type) != "string" {
 					continue
 				}
-				total, routed := 0, 0
+				total, routed, indexed := 0, 0, 0
 				var walk func(n ast.Node, inMsg bool)
 				walk = func(n ast.Node, inMsg bool) {
 					ast.Inspect(n, func(m ast.Node) bool {
@@ -67,12 +67,13 @@ func (c *ctxT) c03ClassOnly() map[string]map[int]bool {
 								if ix, ok := x.Index.(*ast.Ident); ok && ix.Name == nm.Name {
 									total++
 									routed++
+									indexed++
 									return false
 								}
 							}
 						case *ast.CallExpr:
 							f := c.src(x.Fun)
-							if f == "panic" || f == "fmt.Errorf" || f == "fmt.Sprintf" || strings.HasSuffix(f, ".Wrapf") || strings.HasSuffix(f, ".Wrap") {
+							if f == "panic" || f == "fmt.Errorf" || strings.HasSuffix(f, ".Wrapf") || strings.HasSuffix(f, ".Wrap") {
 								for _, a := range x.Args {
 									ast.Inspect(a, func(k ast.Node) bool {
 										if id, ok := k.(*ast.Ident); ok && id.Name == nm.Name {
@@ -93,7 +94,7 @@ func (c *ctxT) c03ClassOnly() map[string]map[int]bool {
 					})
 				}
 				walk(fd.Body, false)
-				if routed > 0 && routed == total {
+				if indexed > 0 && routed == total {
 					if res[fd.Name.Name] == nil {
 						res[fd.Name.Name] = map[int]bool{}
 					}
